@@ -111,7 +111,7 @@ def build_repo(cfg, targets=None):
 
 INCLUDES = ['smt', 'smt/arith', 'smt/arith/lra', 'smt/arith/dl', 'smt/ov', 'smt/json', 'smt/concurrent', 'riddle', 'core',
             'solver', 'solver/flaws', 'solver/types', 'solver/heuristics', 'executor']
-BIN_INCLUDES = ['smt', 'smt/json', 'riddle', 'core', 'solver', 'executor']
+BIN_INCLUDES = ['smt', 'smt/json', 'smt/concurrent', 'riddle', 'core', 'solver', 'executor']
 
 
 def build_driver(name, cfg, libs=('smt', 'json'), defines=(), extra_flags=()):
